@@ -115,7 +115,8 @@ func (c serviceCodec) decodeMethod(name string, context *ServiceContext) (err er
 func (c serviceCodec) decodeArguments(method Method, decoder *io.Decoder) (args []interface{}, err error) {
 	tag := decoder.NextByte()
 	if tag != io.TagList {
-		return
+		// a failure while decoding the headers or the name must not be dropped
+		return nil, decoder.Error
 	}
 	decoder.Reset()
 	if method.Missing() {
